@@ -627,6 +627,13 @@ func (p NewChannelReqPayload) MarshalBinary() ([]byte, error) {
 	if p.Freq%100 != 0 {
 		return b, errors.New("lorawan: Freq must be a multiple of 100")
 	}
+	if p.Freq >= 2400000000 && p.Freq%200 != 0 {
+		return b, errors.New("lorawan: Freq must be a multiple of 200 for 2.4GHz frequencies")
+	}
+	if p.Freq >= 1200000000 && p.Freq < 2400000000 {
+		// coded values >= 12000000 are decoded with the 2.4GHz stepping
+		return b, errors.New("lorawan: Freq between 1.2GHz and 2.4GHz can not be encoded")
+	}
 	if p.MaxDR > 15 {
 		return b, errors.New("lorawan: max value of MaxDR is 15")
 	}
